@@ -200,6 +200,7 @@ func genMapSession(r *rand.Rand, i int) J {
 		// (What such a map answers to m.key is not the reference's business: judged on determinism.)
 		c["reprs"] = []any{J{"m": pick(r, []string{"ptrkeys", "dropkeys"})}}
 		c["noref"] = true
+		c["addrcheck"] = true
 		c["templates"] = []any{
 			[]any{nObj(eVar("m"))},
 			mapLoop("m"),
